@@ -29,6 +29,8 @@ pub enum Error {
     },
     /// `$e` at stage 0: there is no earlier stage to evaluate `e` in.
     EscapeOutsideCode(Location),
+    /// `a[i] = v`: array elements cannot be assigned.
+    ArrayElementAssignment(Location),
     LengthMismatch {
         left: (usize, Location),
         right: (usize, Location),
@@ -137,6 +139,9 @@ impl ReportableError for Error {
             }
             Error::EscapeOutsideCode(_) => {
                 format!("Escape cannot be used at stage 0")
+            }
+            Error::ArrayElementAssignment(_) => {
+                format!("Assignment to an array element is not supported")
             }
             Error::PatternMismatch(..) => format!("Pattern mismatch"),
             Error::LengthMismatch { .. } => format!("Length of the elements are different"),
@@ -339,6 +344,10 @@ impl ReportableError for Error {
             Error::EscapeOutsideCode(loc) => vec![(
                 loc.clone(),
                 "there is no earlier stage to evaluate this escape in".to_string(),
+            )],
+            Error::ArrayElementAssignment(loc) => vec![(
+                loc.clone(),
+                "arrays are immutable; build a new array instead".to_string(),
             )],
             Error::PatternMismatch((ty, loct), (pat, locp)) => vec![
                 (loct.clone(), ty.to_type().to_string_for_error()),
@@ -2515,7 +2524,7 @@ impl InferContext {
                         Ok(unit!())
                     }
                     Expr::ArrayAccess(_, _) => {
-                        unimplemented!("Assignment to array is not implemented yet.")
+                        Err(vec![Error::ArrayElementAssignment(loc.clone())])
                     }
                     _ => {
                         // This should be caught by parser, but add a generic error just in case
